@@ -269,6 +269,10 @@ func init() {
 		}
 		groupFoundations(c, true)
 		ownershipRules(c) // encodings handed out are copies; inputs are not modified
+		if p0 := c.Prog(c.Configs()[0]); p0 != nil {
+			c.Run.SetConfig(c.Configs()[0])
+			checkCompressedUnmarshal(c.Run.Rule("DT-compressed-unmarshal", "CompressedEdwardsY.UnmarshalBinary accepts only after a successful point decode of the input bytes themselves and then holds those bytes", 1), &edt.Config{P: p0, Mod: modFor(p0)}, []string{"CompressedEdwardsY"})
+		}
 	}
 }
 
